@@ -20,8 +20,9 @@ tracing local transport.
 T2 (model vs code, per (root client path, client path)):
   tr    SmartServerRequest.translate_client_path       result / error kind
   vfs   VfsRequest.translate_client_path               result / error kind
-        (the harness probes whether the tree has the as-found or the fixed
-        variant and selects the model variant `fx`)
+        (compared with the FIXED model variant, unescape first; the harness also
+        probes the variant of the tree and records a tie failure if it is not the
+        fixed one)
   clone transport_from_client_path(...).base           path part
   loc   what the chroot/userdir stack hands to the local transport (traced) and
         what a read through it returns, against the model's backing relpath /
@@ -47,8 +48,10 @@ BzrDirFormat.initialize) and for a sample through a real socket medium pair:
     (a request class that opens a given URL is dispatched through the real
     handler, so setup_jail / the pre_open hook are the real ones).
 
-Findings on the unchanged tree are reported with families computed from the
-failing input (see `_family`).
+Findings: the VFS breakout ('..%2Fcanary', '%%32E%%32E/canary') found by this check was
+fixed by `fix:` commit 3cca92d; it has no family any more and is a plain VIOLATION if it
+returns.  The jail-url-* families (external dromedary chroot defects, see `_family`) are
+committed known findings.
 
 Mutants this was built against (scratch worktrees; all semantic ones caught):
   M1 translate_client_path without the joinpath normalisation      -> T2 (10140 mismatches; the chroot
@@ -480,21 +483,23 @@ def t2_paths(ctx, s, cps, fx, deep=True):
 
 def _family(kind, cp, translated=None):
     """classify a failing input by what it contains; anything unexpected gets None.
-    kind 'vfs': a client path given to a VFS verb; kind 'jail': a URL opened during a request"""
+    Only URLs opened during a request (kind 'jail') have finding families (external dromedary chroot
+    defects).  A client path given to a verb (kind 'vfs') that reaches outside has NO family: the VFS
+    breakout through '..%2F' was fixed (fix: commit 3cca92d) and must be a plain VIOLATION if it returns."""
+    if kind != "jail":
+        return None
     low = cp.lower()
     dotdot = b".." in cp or b"%2e" in low
     if b"%2f" in low and dotdot:
         # a '/' hidden behind percent-encoding next to a (possibly encoded) dot-dot
-        slug = "encoded-slash-dotdot"
-    elif re.search(rb"%%3[0-9]", low) and re.search(rb"%%32(e|%45|%65)", low):
+        return "jail-url-encoded-slash-dotdot"
+    if re.search(rb"%%3[0-9]", low) and re.search(rb"%%32(e|%45|%65)", low):
         # "%%32E": a '%' followed by the escape of a hex digit, which only a second decoding turns into %2E
-        slug = "double-encoded-dotdot"
-    elif kind == "jail" and dotdot:
+        return "jail-url-double-encoded-dotdot"
+    if dotdot:
         # a chroot URL with a literal or %2E-encoded dot-dot segment handed to get_transport()
-        slug = "dotdot-unnormalised"
-    else:
-        return None
-    return ("vfs-" if kind == "vfs" else "jail-url-") + slug
+        return "jail-url-dotdot-unnormalised"
+    return None
 
 
 # --------------------------------------------------------------------------
@@ -841,12 +846,15 @@ def run(ctx, n_exh=None, n_deep=None, n_verbs=None):
     wa, wb = make_world("A"), make_world("B")
     sa = {k: make_server(wa, *k) for k in CONFIGS}
     sb = {k: make_server(wb, *k) for k in CONFIGS}
+    # the model variant compared is always the fixed one (unescape first); a tree that has the as-found
+    # variant again shows up as T2 mismatches and, through the oracle, as plain violations
+    fx = True
     fxs = {k: probe_fx(sa[k]) for k in CONFIGS}
-    fx = fxs[CONFIGS[0]]
-    if fx is None or any(v != fx for v in fxs.values()):
-        ctx.mismatch(dict(op="probe"), repr(fxs), "as-found or fixed VfsRequest.translate_client_path")
-        fx = bool(fx)
-    ctx.extra["vfs_translate_variant"] = "unescape-first (fixed)" if fx else "unescape-last (as found)"
+    if any(v is not True for v in fxs.values()):
+        ctx.mismatch(dict(op="probe"), "VfsRequest.translate_client_path variants: %r" % ({str(k): v for k, v in fxs.items()},),
+                     "unescape-first (fixed) everywhere")
+    ctx.extra["vfs_translate_variant"] = ("unescape-first (fixed)" if all(v is True for v in fxs.values())
+                                          else "NOT the fixed variant: %r" % (sorted(set(map(str, fxs.values()))),))
     n_exh = n_exh or ctx.pick(4, 5)       # translate functions only
     n_deep = n_deep or ctx.pick(3, 4)     # + clone + traced reads
     n_verbs = n_verbs or ctx.pick(2, 3)   # + every verb class in two worlds
@@ -907,7 +915,7 @@ def replay(ctx, case):
     wa, wb = make_world("A"), make_world("B")
     rcp = case.get("rcp", "/")
     sa_, sb_ = make_server(wa, rcp, case.get("cfg")), make_server(wb, rcp, case.get("cfg"))
-    fx = bool(probe_fx(sa_))
+    fx = True
     out = dict(case=case)
     if case.get("op", "").startswith("jail"):
         jail_cases(ctx, sa_, sb_)
